@@ -43,7 +43,23 @@ def run_e1(spec, tier, seed):
         "undecided": rep.undecided, "guard_failures": rep.guard_failures, "dropped_calls": sorted(set(rep.dropped)),
         "inlined": sorted(set(rep.inlined)), "summarised": sorted(set(rep.summarised)), "wall_s": round(rep.wall_s, 2),
         "sample": sample,
+        "slice": None if rep.slice_lines is None else {
+            "verified_statement_lines": [list(x) for x in rep.slice_lines],
+            "dropped_top_level_statement_lines": _merge(rep.outside_slice or []),
+            "enclosing_statements_only_partly_verified": [list(x) for x in (getattr(rep, "partly_outside", None) or [])],
+        },
     }
+
+
+def _merge(ranges, gap=3):
+    """Adjacent statement ranges (separated only by blank / comment lines) as one range."""
+    out = []
+    for a, b in sorted(ranges):
+        if out and a <= out[-1][1] + gap:
+            out[-1][1] = max(out[-1][1], b)
+        else:
+            out.append([a, b])
+    return out
 
 
 def _scalars(model):
